@@ -181,11 +181,12 @@ def show(t):
     if t[0] == 'v':
         return '_V%d' % t[1]
     if t[0] == 'a':
-        return t[1]
+        n = t[1]
+        return n if (n == '[]' or (n[:1].islower() and n.replace('_', 'a').isalnum())) else "'%s'" % n
     if t[0] == 'i':
         return str(t[1])
     if t[0] == 's':
-        return repr(t[1])
+        return '"%s"' % t[1]
     if t[1] == '.' and len(t[2]) == 2:
         items = []
         while t[0] == 'f' and t[1] == '.' and len(t[2]) == 2:
@@ -259,10 +260,10 @@ def raw_state(v):
 # ------------------------------------------------------------------------------------
 # seeded generators (pure functions of the rng)
 
-ATOMS = ('a', 'b')
+ATOMS = ('a', 'b', 'ab', '1')
 INTS = (0, 1)
-STRS = ('a', 'x y')
-FUNCTORS = ('f', 'g')
+STRS = ('a', '1', 'x y')
+FUNCTORS = ('f', 'g', 'fg')
 
 
 def rnd_leaf(rng, nv, p_var=0.5):
@@ -302,7 +303,7 @@ def mutate(rng, t, nv, depth):
         elif k < 0.08:
             args = args + (rnd_leaf(rng, nv),)
         elif k < 0.12:
-            return ('f', 'g' if t[1] == 'f' else 'f', args)
+            return ('f', rng.choice([n for n in FUNCTORS if n != t[1]]), args)
         return ('f', t[1], args)
     if rng.random() < 0.3 and nv:
         return ('v', rng.randrange(nv))
